@@ -502,6 +502,8 @@ def read_correspondence(tier):
 
 
 def classify(f, ops):
+    if "xsd-uri-without-hash" in (f.get("feats") or []):
+        return "C02-F3"
     c = c01.classify(f, ops)
     return {"C01-F1": "C02-F1", "C01-F2": "C02-F2", "C01-F3": None}.get(c)
 
